@@ -10,10 +10,12 @@
      function_expression name _ '(' _ param_assignment ** (_ ',' _) _ ')'
      param_assignment    NOT? _ name _ '=>' _ variable  /  (name _ ':=')? _ expression
      statement_list      statements_or_empty()+   with   _ ';' _  /  (statement ** (_ ';' _)) _ ';'
-     statement           assignment / IF / FOR / WHILE / REPEAT / EXIT / name(...) / RETURN
+     statement           assignment / IF / CASE / FOR / WHILE / REPEAT / EXIT / name(...) / RETURN
+     case_statement      CASE _ expression _ OF _ case_element ** _ _ (ELSE _ statement_list)? _ END_CASE
+     case_element        case_list_element ++ (_ ',' _) _ ':' _ statement_list;  element: subrange / signed_integer / name
 
    Scope: tokens are classified by [cl]; class CSel ('..'), a '#' that does not follow BOOL, and COther (everything the model
-   does not read: CASE, typed and time literals, reals, direct addresses ...) put a text outside the model, which the
+   does not read: typed and time literals, reals, direct addresses ...) put a text outside the model, which the
    entry point reports as a distinct outcome.
    Recursion is open and tied with fuel; running out of fuel is a distinct outcome.  Executable; no proofs here. *)
 From Coq Require Import List NArith Bool Arith.
@@ -21,12 +23,14 @@ From Verif Require Import Base.Res Base.Text Model.ExprParser.
 Import ListNotations.
 
 Inductive kw := KwIf | KwThen | KwElsif | KwElse | KwEndIf | KwFor | KwTo | KwBy | KwDo | KwEndFor
-  | KwWhile | KwEndWhile | KwRepeat | KwUntil | KwEndRepeat | KwExit | KwReturn | KwEndPou.
+  | KwWhile | KwEndWhile | KwRepeat | KwUntil | KwEndRepeat | KwExit | KwReturn | KwEndPou
+  | KwCase | KwOf | KwEndCase.
 Inductive ckind := CkInt | CkTrue | CkFalse | CkStr | CkWStr.
 Inductive tcl :=
   | CTriv | CId | CConst (k : ckind)
   | CLP | CRP | CComma | CSemi | CAssign | CArrow
   | CDot | CLB | CRB           (* '.', '[', ']' of structured and array variables *)
+  | CColon | CRange            (* ':' and '..' of CASE selectors *)
   | COp (o : binop)            (* infix only; '+' is COp BAdd *)
   | CMinus | CNot
   | CKw (k : kw)
@@ -37,7 +41,8 @@ Definition kw_eqb (a b : kw) : bool :=
   match a, b with
   | KwIf, KwIf | KwThen, KwThen | KwElsif, KwElsif | KwElse, KwElse | KwEndIf, KwEndIf | KwFor, KwFor | KwTo, KwTo
   | KwBy, KwBy | KwDo, KwDo | KwEndFor, KwEndFor | KwWhile, KwWhile | KwEndWhile, KwEndWhile | KwRepeat, KwRepeat
-  | KwUntil, KwUntil | KwEndRepeat, KwEndRepeat | KwExit, KwExit | KwReturn, KwReturn | KwEndPou, KwEndPou => true
+  | KwUntil, KwUntil | KwEndRepeat, KwEndRepeat | KwExit, KwExit | KwReturn, KwReturn | KwEndPou, KwEndPou
+  | KwCase, KwCase | KwOf, KwOf | KwEndCase, KwEndCase => true
   | _, _ => false
   end.
 
@@ -70,10 +75,16 @@ Inductive sexpr :=
   | XCall (f : text) (ps : list (param sexpr))
   | XVar (n : text) (ss : list (sel sexpr)).     (* ExprKind::Variable: Named, then Structured / Array for each selector *)
 
+Inductive csel :=
+  | CsInt (neg : bool) (v : N)                              (* CaseSelectionKind::SignedInteger *)
+  | CsRange (n1 : bool) (v1 : N) (n2 : bool) (v2 : N)       (* Subrange *)
+  | CsEnum (n : text).                                      (* EnumeratedValue without type prefix *)
+
 Inductive stmt :=
   | TAssign (v : text) (vs : list (sel sexpr)) (e : sexpr)
   | TCall (f : text) (ps : list (param sexpr))
   | TIf (c : sexpr) (body : list stmt) (elifs : list (sexpr * list stmt)) (els : list stmt)
+  | TCase (c : sexpr) (groups : list (list csel * list stmt)) (els : list stmt)
   | TFor (v : text) (e1 e2 : sexpr) (step : option sexpr) (body : list stmt)
   | TWhile (c : sexpr) (body : list stmt)
   | TRepeat (body : list stmt) (c : sexpr)
@@ -113,6 +124,8 @@ Section Parser.
   Definition is_rp c := match c with CRP => true | _ => false end.
   Definition is_comma c := match c with CComma => true | _ => false end.
   Definition is_rb c := match c with CRB => true | _ => false end.
+  Definition is_colon c := match c with CColon => true | _ => false end.
+  Definition is_range c := match c with CRange => true | _ => false end.
   Definition is_semi c := match c with CSemi => true | _ => false end.
   Definition is_assign c := match c with CAssign => true | _ => false end.
   Definition is_arrow c := match c with CArrow => true | _ => false end.
@@ -568,6 +581,117 @@ Section Parser.
     | Fail => Fail | Panic => Panic | OutOfFuel => OutOfFuel
     end.
 
+  (* signed_integer: '+'? Digits / '-' Digits, adjacent *)
+  Definition signed_int (ts : list tk) : option ((bool * N) * list tk) :=
+    match ts with
+    | t :: r =>
+        match cl t with
+        | CConst CkInt => Some ((false, num t), r)
+        | COp BAdd => match r with
+                      | d :: r' => match cl d with CConst CkInt => Some ((false, num d), r') | _ => None end
+                      | [] => None
+                      end
+        | CMinus => match r with
+                    | d :: r' => match cl d with CConst CkInt => Some ((true, num d), r') | _ => None end
+                    | [] => None
+                    end
+        | _ => None
+        end
+    | [] => None
+    end.
+
+  (* case_list_element: subrange / signed_integer / enumerated_value *)
+  Definition case_sel (ts : list tk) : option (csel * list tk) :=
+    match signed_int ts with
+    | Some ((n1, v1), r) =>
+        match next_is is_range r with
+        | Some r1 => match signed_int (skip r1) with
+                     | Some ((n2, v2), r2) => Some (CsRange n1 v1 n2 v2, r2)
+                     | None => Some (CsInt n1 v1, r)
+                     end
+        | None => Some (CsInt n1 v1, r)
+        end
+    | None => match ident ts with
+              | Some (n, r) => Some (CsEnum n, r)
+              | None => None
+              end
+    end.
+
+  (* the tail of  case_list_element ++ (_ ',' _)  after one element *)
+  Fixpoint csels_more (f : nat) (acc : list csel) (ts : list tk) : R (list csel) :=
+    match f with
+    | O => OutOfFuel
+    | S f' =>
+        match next_is is_comma ts with
+        | Some r => match case_sel (skip r) with
+                    | Some (x, r') => csels_more f' (acc ++ [x]) r'
+                    | None => Ok (acc, ts)
+                    end
+        | None => Ok (acc, ts)
+        end
+    end.
+
+  (* case_element: case_list _ ':' _ statement_list *)
+  Definition case_elem (pl : list tk -> R (list stmt)) (f : nat) (ts : list tk) : R (list csel * list stmt) :=
+    match case_sel ts with
+    | Some (x, r) =>
+        match csels_more f [x] r with
+        | Ok (ss, r1) =>
+            match next_is is_colon r1 with
+            | Some r2 => match pl (skip r2) with
+                         | Ok (b, r3) => Ok ((ss, b), r3)
+                         | Fail => Fail | Panic => Panic | OutOfFuel => OutOfFuel
+                         end
+            | None => Fail
+            end
+        | Fail => Fail | Panic => Panic | OutOfFuel => OutOfFuel
+        end
+    | None => Fail
+    end.
+
+  (* the tail of  case_element ** _  after one element *)
+  Fixpoint cases_more (pl : list tk -> R (list stmt)) (f : nat) (acc : list (list csel * list stmt)) (ts : list tk)
+    : R (list (list csel * list stmt)) :=
+    match f with
+    | O => OutOfFuel
+    | S f' =>
+        match case_elem pl f' (skip ts) with
+        | Ok (x, r) => cases_more pl f' (acc ++ [x]) r
+        | Fail => Ok (acc, ts)
+        | Panic => Panic | OutOfFuel => OutOfFuel
+        end
+    end.
+
+  Definition cases (pl : list tk -> R (list stmt)) (f : nat) (ts : list tk) : R (list (list csel * list stmt)) :=
+    match case_elem pl f ts with
+    | Ok (x, r) => cases_more pl f [x] r
+    | Fail => Ok ([], ts)
+    | Panic => Panic | OutOfFuel => OutOfFuel
+    end.
+
+  (* after CASE: _ e _ OF _ case_element ** _ _ (ELSE _ list)? _ END_CASE *)
+  Definition case_tail (pe : nat -> list tk -> R sexpr) (pl : list tk -> R (list stmt)) (f : nat) (r : list tk) : R stmt :=
+    match pe0 pe r with
+    | Ok (c, r1) =>
+        match next_is (is_kw KwOf) r1 with
+        | Some r2 =>
+            match cases pl f (skip r2) with
+            | Ok (gs, r3) =>
+                match else_part pl r3 with
+                | Ok (els, r4) =>
+                    match next_is (is_kw KwEndCase) r4 with
+                    | Some r5 => Ok (TCase c gs els, r5)
+                    | None => Fail
+                    end
+                | Fail => Fail | Panic => Panic | OutOfFuel => OutOfFuel
+                end
+            | Fail => Fail | Panic => Panic | OutOfFuel => OutOfFuel
+            end
+        | None => Fail
+        end
+    | Fail => Fail | Panic => Panic | OutOfFuel => OutOfFuel
+    end.
+
   (* statement(): assignment / selection / iteration / subprogram control, in this order *)
   Definition stmt1 (pe : nat -> list tk -> R sexpr) (pl : list tk -> R (list stmt)) (f : nat) (ts : list tk) : R stmt :=
     match assign pe f ts with
@@ -576,6 +700,7 @@ Section Parser.
         | t :: r =>
             match cl t with
             | CKw KwIf => if_tail pe pl f r
+            | CKw KwCase => case_tail pe pl f r
             | CKw KwFor => for_tail pe pl r
             | CKw KwWhile => while_tail pe pl r
             | CKw KwRepeat => repeat_tail pe pl r
